@@ -6,6 +6,7 @@ from collections import defaultdict
 from . import facts as factsmod
 from . import inline as inlinemod
 from . import expand as expandmod
+from . import thread as threadmod
 
 EXPAND = os.environ.get("VERIF_NO_EXPAND") is None
 
@@ -419,6 +420,16 @@ class Fn:
             return ds[0]
         return None
 
+    def single_stmt_def(self, l):
+        """like single_def, but the copies of one statement made by the threading pass (rules/thread.py) count as one
+        definition.  For rules that ask *which statement* builds a value; not for resolving a value at a point."""
+        all_ds = self.defs().get(l, [])
+        if any(x[2] == "partial" for x in all_ds) or self.is_param(l):
+            return None
+        have = {(x[0], x[1]) for x in all_ds}
+        ds = [x for x in all_ds if (self.blocks[x[0]].get("clone_of"), x[1]) not in have]
+        return ds[0] if len(ds) == 1 else None
+
     def has_partial_defs(self, l):
         return any(x[2] == "partial" for x in self.defs().get(l, []))
 
@@ -526,6 +537,86 @@ def _param_names(rec):
     return out[1:]
 
 
+def _field_renames(adts, known_fields):
+    """{(adt, variant): {current field name: name in the tree the rules were written against}} for the local types whose
+    fields were renamed.  Names present in both trees keep themselves; a new name is paired with a vanished name of the
+    same type (in order of appearance).  Anything that does not pair up is left alone."""
+    out = {}
+    for k, a in adts.items():
+        kf = (known_fields or {}).get(k)
+        if not kf:
+            continue
+        for v in a["variants"]:
+            old = kf.get(v["name"])
+            if old is None or len(old) != len(v["fields"]):
+                continue
+            cur_names = [f["name"] for f in v["fields"]]
+            old_names = [n for n, _ in old]
+            if set(cur_names) == set(old_names) or any(n.isdigit() for n in cur_names):
+                continue
+            new = [(f["name"], f["ty"]) for f in v["fields"] if f["name"] not in old_names]
+            gone = [(n, ty) for n, ty in old if n not in cur_names]
+            m = {}
+            for n, ty in new:
+                for j, (on, oty) in enumerate(gone):
+                    if oty == ty:
+                        m[n] = on
+                        del gone[j]
+                        break
+            if m:
+                out[(k, v["name"])] = m
+    return out
+
+
+def _apply_field_renames(d, ren):
+    """rewrite field names in places, aggregates and the type table of one target's facts"""
+    if not ren:
+        return 0
+    n = 0
+    struct_variant = {}
+    for k, a in d["adts"].items():
+        if a["kind"] != "enum" and len(a["variants"]) == 1:
+            struct_variant[k] = a["variants"][0]["name"]
+
+    def walk(j):
+        nonlocal n
+        if isinstance(j, list):
+            variant = None
+            for x in j:
+                if isinstance(x, dict) and "downcast" in x:
+                    variant = x["downcast"]
+                    continue
+                if isinstance(x, dict) and "f" in x and "adt" in x and len(x) <= 4:
+                    m = ren.get((x["adt"], variant if variant is not None else struct_variant.get(x["adt"])))
+                    if m and x["f"] in m:
+                        x["f"] = m[x["f"]]
+                        n += 1
+                    variant = None
+                    continue
+                variant = None
+                walk(x)
+        elif isinstance(j, dict):
+            if j.get("k") == "agg" and j.get("ak") == "adt" and "fields" in j:
+                m = ren.get((j.get("adt"), j.get("variant")))
+                if m:
+                    j["fields"] = [m.get(f, f) for f in j["fields"]]
+                    n += 1
+            for v in j.values():
+                if isinstance(v, (list, dict)):
+                    walk(v)
+    for rec in d["fns"].values():
+        walk(rec.get("blocks") or [])
+        walk(rec.get("vars") or [])
+    for (k, vn), m in ren.items():
+        for v in d["adts"].get(k, {}).get("variants", []):
+            if v["name"] == vn:
+                for f in v["fields"]:
+                    if f["name"] in m:
+                        f["was"] = f["name"]
+                        f["name"] = m[f["name"]]
+    return n
+
+
 def _canonical_upvars(fns, known_params):
     """A closure / async body names the variables it captures.  When such a variable is a parameter of the enclosing
     function, the rules refer to it by the name that parameter had in the tree they were written against
@@ -558,9 +649,12 @@ class Program:
         self.unsafe = []
         self.counts = defaultdict(int)
         self.expanded = {}       # fn key -> [(combinator, line)]: iterator pipelines / Option-Result combinators rewritten as loops / matches
+        self.threaded = {}       # fn key -> number of stored conditions threaded back into branches (rules/thread.py)
         self.inlined = {}        # caller key -> [(helper key, line)]: new helpers expanded at their call sites
         known = inlinemod.load_known()
         known_params = inlinemod.load_known_params()
+        known_fields = inlinemod.load_known_fields()
+        self.renamed_fields = {}
         for t in factsmod.EXPECTED_TARGETS:
             path = os.path.join(facts_dir, t + ".json")
             if not os.path.isfile(path):
@@ -570,6 +664,10 @@ class Program:
             if d.get("schema") != factsmod.SCHEMA:
                 raise AnchorMissing("fact schema mismatch in %s" % t)
             self.targets[t] = d
+            ren = _field_renames(d["adts"], known_fields)
+            if _apply_field_renames(d, ren):
+                for (k_, v_), m_ in ren.items():
+                    self.renamed_fields.setdefault("%s::%s" % (k_, v_), {}).update(m_)
             _canonical_upvars(d["fns"], known_params)
             for _round in range(3):
                 erep = expandmod.expand_all(d["fns"], known) if EXPAND else {}
@@ -580,6 +678,9 @@ class Program:
                     self.inlined.setdefault(k, []).extend(v)
                 if not erep and not rep:
                     break
+            if EXPAND:
+                for k, v in threadmod.thread_all(d["fns"]).items():
+                    self.threaded[k] = v
             for k, v in d["counts"].items():
                 self.counts[k] += v
             for k, rec in d["fns"].items():
